@@ -533,6 +533,7 @@ func runC03(c *Ctx) {
 		}
 	}
 	c04Extra(c)
+	c03PresenceIndex(c)
 }
 
 // enclosingStmtList returns the innermost block/clause that contains n.
